@@ -2191,7 +2191,8 @@ double BW_MidiSequencer::seek(double seconds, const double granularity)
      */
     m_loop.caughtStart   = false;
 
-    m_loop.temporaryBroken = (seconds >= m_loopEndTime);
+    // Without a loop end point (its time is -1 then) the loop ends with the song: no target is behind it
+    m_loop.temporaryBroken = (m_loopEndTime >= 0.0) && (seconds >= m_loopEndTime);
 
     while((m_currentPosition.absTimePosition < seconds) &&
           (m_currentPosition.absTimePosition < m_fullSongTimeLength))
